@@ -13,7 +13,7 @@ NONE = "none"
 NOADDR = -1
 NONEIDX = 99
 
-SCALAR_KEYS = {"par", "addr", "isz", "off", "bsz", "sname", "pay", "entry", "irof", "modof", "secof",
+SCALAR_KEYS = {"scal", "deq", "shadowed", "par", "addr", "isz", "off", "bsz", "sname", "pay", "entry", "irof", "modof", "secof",
                "baddr", "built", "nev"}
 SEQ_KEYS = {"mods", "bytes", "bbytes", "secext"}
 SET_KEYS = {"kids", "cache", "refs", "tags", "symx", "cfg", "nout", "nin"}
@@ -44,6 +44,31 @@ class Unprojectable(Exception):
     pass
 
 
+PENDING_IR = []   # (op, record) of IRs accepted from faulty files, judged by TLC at the end of a stage
+SCHEMA = None   # protomsg.Schema, set by the CLI after the package is built
+
+STR = {"s0": "", "s1": "a", "s2": "é中\U0001f600<>,\x00z"}
+U64 = {"0": 0, "1": 1, "MAX64": 2 ** 64 - 1, "2^63": 2 ** 63}
+I64 = {"0": 0, "1": 1, "-1": -1, "MIN64": -2 ** 63, "MAX63": 2 ** 63 - 1}
+
+
+def _first_diff(a, b, path=""):
+    """where two canonical records differ first (diagnostics)"""
+    if type(a) != type(b):
+        return {"at": path, "expected": a, "observed": b}
+    if isinstance(a, dict):
+        for k in sorted(set(a) | set(b)):
+            if a.get(k) != b.get(k):
+                return _first_diff(a.get(k), b.get(k), path + "." + k)
+    elif isinstance(a, list):
+        if len(a) != len(b):
+            return {"at": path, "expected_len": len(a), "observed_len": len(b), "expected": a[:3], "observed": b[:3]}
+        for i, (x, y) in enumerate(zip(a, b)):
+            if x != y:
+                return _first_diff(x, y, "%s[%d]" % (path, i))
+    return {"at": path, "expected": a, "observed": b}
+
+
 class Env:
     def __init__(self, gtirb, consts, base=0, seed=0):
         self.g = gtirb
@@ -66,20 +91,35 @@ class Env:
         for e in sorted(consts["Exprs"]):
             self._set(e, self._new_expr(e))
             self.kind[e] = "expr"
-        flag = g.Section.Flag
-        attr = g.SymbolicExpression.Attribute
-        self.flag_of = {"t1": flag.Readable, "t2": flag.Executable, "t3": flag.Undefined}
-        self.attr_of = {"t1": attr.GOT, "t2": 999, "t3": attr.NOTOC}
+        self.shadow = {}
+        self.pending_ir = PENDING_IR
         EL, ET = g.Edge.Label, g.Edge.Type
-        self.label_of = {"nolabel": None, "f": EL(ET.Branch, False, False), "L1": EL(ET.Call, True, True),
-                         "L2": EL(ET.Sysret, False, True), "L3": EL(ET.Branch, True, False)}
-        self.token_of_label = {v: k for k, v in self.label_of.items()}
+        self.label_alias = {"f": "L000", "L1": "L111", "L2": "L501", "L3": "L010"}
+        self.label_of = {"nolabel": None}
+        self.token_of_label = {None: "nolabel"}
+        for tok in sorted(consts.get("Labels", ())):
+            if tok != "nolabel":
+                t, c, d = self.label_fields(tok)
+                lab = EL(ET(t), bool(c), bool(d))
+                self.label_of[tok] = lab
+                self.token_of_label[lab] = tok
         for a in consts.get("Attach0", []):
             c, p = a
             if self.kind[c] == "mod":
                 self.obj[p].modules.append(self.obj[c])
             else:
                 self._coll(p, self._rel(c)).add(self.obj[c])
+        for y, pv in sorted(consts.get("Pay0", ())):
+            if pv.startswith("#"):
+                self.obj[y].value = int(pv[1:])
+            else:
+                self.obj[y].referent = self.obj[pv]
+        for v, k, e in sorted(consts.get("Symx0", ())):
+            self.obj[v].symbolic_expressions[k] = self.obj[e]
+        for i, e in sorted(consts.get("Cfg0", ())):
+            self.obj[i].cfg.add(self.to_edge(e))
+        for m, c in sorted(consts.get("Entry0", ())):
+            self.obj[m].entry_point = self.obj[c]
 
     # ---- identities -----------------------------------------------------
     def uuid(self, n):
@@ -93,18 +133,76 @@ class Env:
         self.ids[id(o)] = n
 
     def _new_expr(self, e):
-        s = self.c["ExprSym"].get(e, NONE)
-        sym = self.obj[s] if s != NONE else self.hidden_sym
-        return self.g.SymAddrConst(0, sym)
+        def sym(table):
+            s = self.c.get(table, {}).get(e, NONE)
+            return self.obj[s] if s != NONE else self.hidden_sym
+        if self.c.get("ExprKind", {}).get(e, "ac") == "aa":
+            return self.g.SymAddrAddr(1, 0, sym("ExprSym"), sym("ExprSym2"))
+        return self.g.SymAddrConst(0, sym("ExprSym"))
+
+    # ---- tokens <-> concrete attribute values -------------------------------------------------
+    def label_fields(self, tok):
+        """'L<type index><conditional><direct>' -> (enum number, cond, direct)"""
+        tok = self.label_alias.get(tok, tok)
+        k = int(tok[1:-2])
+        num = SCHEMA.enums["EdgeType"][k][1] if SCHEMA else k
+        return num, int(tok[-2]), int(tok[-1])
+
+    def label_token(self, number, cond, direct):
+        for tok, lab in self.label_of.items():
+            if lab is not None and lab.type.value == number and lab.conditional == bool(cond) and lab.direct == bool(direct):
+                return tok
+        return "L?%d%d%d" % (number, cond, direct)
+
+    def flag_number(self, t):
+        return SCHEMA.enums["SectionFlag"][t][1]
+
+    def flag_token(self, number):
+        for k, (_, n) in enumerate(SCHEMA.enums["SectionFlag"]):
+            if n == number:
+                return k
+        return "FLAG?%d" % number
+
+    def attr_number(self, t):
+        vals = SCHEMA.enums["SymAttribute"]
+        if t >= len(vals) or t % 5 == 4:
+            return 7000 + t            # a number the schema does not name: kept as an int by the API
+        return vals[t][1]
+
+    def attr_token(self, number):
+        if number >= 7000:
+            return number - 7000
+        for k, (_, n) in enumerate(SCHEMA.enums["SymAttribute"]):
+            if n == number:
+                return k
+        return "ATTR?%d" % number
+
+    def to_str(self, tok):
+        return STR[tok]
+
+    def str_token(self, v):
+        return {w: k for k, w in STR.items()}.get(v, "STR?%r" % (v,))
+
+    def to_u64(self, tok):
+        return U64[tok]
+
+    def u64_token(self, v):
+        return {w: k for k, w in U64.items()}.get(v, "U64?%r" % (v,))
+
+    def to_i64(self, tok):
+        return I64[tok]
+
+    def i64_token(self, v):
+        return {w: k for k, w in I64.items()}.get(v, "I64?%r" % (v,))
 
     def _construct(self, n, **kw):
         g, k, u = self.g, self.kind[n], self.uuid(n)
         if k == "ir":
             return g.IR(uuid=u, **kw)
         if k == "mod":
-            return g.Module(name=n, uuid=u, **kw)
+            return g.Module(name="", uuid=u, **kw)
         if k == "sec":
-            return g.Section(name=n, uuid=u, **kw)
+            return g.Section(uuid=u, **kw)
         if k == "biv":
             return g.ByteInterval(uuid=u, **kw)
         if k == "code":
@@ -244,12 +342,17 @@ class Env:
         if name == "mod.entry":
             O[op["m"]].entry_point = None if op["c"] == NONE else O[op["c"]]
             return NONE
+        if name == "scal":
+            return self._do_scal(op["h"], op["f"], op["t"])
         if name in ("tag.add", "tag.del"):
             return self._do_tag(name == "tag.add", op["h"], op["t"])
         if name == "new":
             return self._do_new(op)
         if name == "reload":
-            return self._do_reload(op["ir"])
+            return self._do_reload(op["ir"], op)
+        if name == "loadfault":
+            from . import faults
+            return faults.do_loadfault(self, op, self.pending_ir)
         raise KeyError("harness has no binding for op %r" % name)
 
     _flipstate = 0
@@ -434,19 +537,51 @@ class Env:
             raise KeyError(m)
         return NONE if C2 is C else {"exc": "NotSameObject"}
 
+    def _attr_value(self, t):
+        n = self.attr_number(t)
+        try:
+            return self.g.SymbolicExpression.Attribute(n)
+        except ValueError:
+            return n
+
     def _do_tag(self, add, h, t):
         o, k = self.obj[h], self.kind[h]
         if k == "sec":
-            (o.flags.add if add else o.flags.discard)(self.flag_of[t])
+            (o.flags.add if add else o.flags.discard)(self.g.Section.Flag(self.flag_number(t)))
         elif k in ("ir", "mod"):
             if add:
-                o.aux_data[t] = self.g.AuxData(7, "uint64_t")
+                o.aux_data["k%d" % t] = self.g.AuxData(7, "uint64_t")
             else:
-                o.aux_data.pop(t, None)
+                o.aux_data.pop("k%d" % t, None)
         elif k == "expr":
-            (o.attributes.add if add else o.attributes.discard)(self.attr_of[t])
+            (o.attributes.add if add else o.attributes.discard)(self._attr_value(t))
         else:
             raise KeyError(k)
+        return NONE
+
+    ENUM_OF = {"isa": ("ISA", lambda g: g.Module.ISA), "file_format": ("FileFormat", lambda g: g.Module.FileFormat),
+               "byte_order": ("ByteOrder", lambda g: g.Module.ByteOrder),
+               "decode_mode": ("DecodeMode", lambda g: g.CodeBlock.DecodeMode)}
+
+    def _do_scal(self, h, f, t):
+        o = self.obj[h]
+        if f in self.ENUM_OF:
+            ename, cls = self.ENUM_OF[f]
+            setattr(o, f, cls(self.g)(SCHEMA.number(ename, t)))
+        elif f in ("name", "binary_path"):
+            setattr(o, f, self.to_str(t))
+        elif f == "preferred_addr":
+            o.preferred_addr = self.to_u64(t)
+        elif f == "rebase_delta":
+            o.rebase_delta = self.to_i64(t)
+        elif f == "at_end":
+            o.at_end = t == "T"
+        elif f == "xoffset":
+            o.offset = self.to_i64(t)
+        elif f == "xscale":
+            o.scale = self.to_i64(t)
+        else:
+            raise KeyError(f)
         return NONE
 
     def _do_new(self, op):
@@ -491,17 +626,47 @@ class Env:
         self.obj[irid].save_protobuf_file(buf)
         return buf.getvalue()
 
-    def _do_reload(self, irid):
-        data = self.save_bytes(irid)
-        old_ir = self.obj[irid]
-        new_ir = self.g.IR.load_protobuf_file(io.BytesIO(data))
-        self.last_reload = (old_ir, new_ir, data)
-        by_uuid = {self.uuid(n): n for n in self.kind if self.kind[n] != "expr"}
-        old_exprs = {}
-        for o in self.reach(old_ir):
+    def _expr_ids(self, ir):
+        out = {}
+        for o in self.reach(ir):
             if isinstance(o, self.g.ByteInterval):
                 for k, e in o.symbolic_expressions.items():
-                    old_exprs[(self.nid(o), k)] = self.nid(e)
+                    out[(self.nid(o), k)] = self.nid(e)
+        return out
+
+    def _do_reload(self, irid, op=None):
+        """save + load of a self-contained IR (C01), with the writer and the reader each compared with
+        the message the specification prescribes (C02) and identity of references (C09)"""
+        import random
+        from . import protomsg
+        from gtirb.proto import IR_pb2
+        from gtirb.version import PROTOBUF_VERSION
+        old_ir = self.obj[irid]
+        old_exprs = self._expr_ids(old_ir)
+        data = self.save_bytes(irid)
+        want = None
+        mapper = protomsg.Mapper(self, SCHEMA) if SCHEMA is not None else None
+        if op is not None and "msg" in op and mapper is not None:
+            # --- writer direction: the bytes are header + a message equal to the spec's, field by field
+            if data[:8] != b"GTIRB\0\0" + bytes([PROTOBUF_VERSION]):
+                return {"exc": "WrongHeader", "msg": data[:8].hex()}
+            pm = IR_pb2.IR()
+            pm.ParseFromString(data[8:])
+            if pm.version != PROTOBUF_VERSION:
+                return {"exc": "WrongVersionField", "msg": pm.version}
+            got = protomsg.canon_msg(mapper.canon_from_proto(pm, old_exprs))
+            want = protomsg.canon_msg(op["msg"])
+            if got != want:
+                return {"exc": "WriterDisagreesWithSchemaMapping", "msg": _first_diff(want, got)}
+        new_ir = self.g.IR.load_protobuf_file(io.BytesIO(data))
+        # --- C01: deep_eq both ways, and saving the loaded IR gives the same content
+        if old_ir.deep_eq(new_ir) is not True or new_ir.deep_eq(old_ir) is not True:
+            return {"exc": "LoadedNotDeepEq"}
+        bad = protomsg.check_identity(self.g, new_ir)
+        if bad:
+            return {"exc": "ReferenceIsACopy", "msg": bad[:3]}
+        self.last_reload = (old_ir, new_ir, data)
+        by_uuid = {self.uuid(n): n for n in self.kind if self.kind[n] != "expr"}
         for o in self.reach(new_ir):
             n = by_uuid.get(o.uuid)
             if n is None:
@@ -514,6 +679,40 @@ class Env:
                     if eid is None:
                         raise Unprojectable("loaded expression at %s+%d was not saved" % (self.nid(o), k))
                     self._set(eid, e)
+        self.shadow[irid] = old_ir
+        if want is not None:
+            buf = io.BytesIO()
+            new_ir.save_protobuf_file(buf)
+            pm2 = IR_pb2.IR()
+            pm2.ParseFromString(buf.getvalue()[8:])
+            got2 = protomsg.canon_msg(mapper.canon_from_proto(pm2, self._expr_ids(new_ir)))
+            if got2 != want:
+                return {"exc": "ResaveDiffers", "msg": _first_diff(want, got2)}
+            # --- reader direction: a message built from the spec's record by an independent writer
+            #     (generated classes only; orders shuffled, duplicates, arbitrary vertex list, ...)
+            self._rng = getattr(self, "_rng", None) or random.Random(12345)
+            im = mapper.build_proto(op["msg"], self._rng, vary=True)
+            ir3 = self.g.IR.load_protobuf_file(io.BytesIO(protomsg.file_bytes(im)))
+            if new_ir.deep_eq(ir3) is not True or ir3.deep_eq(new_ir) is not True:
+                return {"exc": "ReaderDisagreesWithSchemaMapping", "msg": "deep_eq with the IR loaded from gtirb's own file"}
+            if [m.uuid for m in ir3.modules] != [m.uuid for m in new_ir.modules]:
+                return {"exc": "ReaderDisagreesWithSchemaMapping", "msg": "module order"}
+            bad = protomsg.check_identity(self.g, ir3)
+            if bad:
+                return {"exc": "ReferenceIsACopy", "msg": bad[:3]}
+            buf = io.BytesIO()
+            ir3.save_protobuf_file(buf)
+            pm3 = IR_pb2.IR()
+            pm3.ParseFromString(buf.getvalue()[8:])
+            ids3 = {}
+            for m in ir3.modules:
+                for v in m.byte_intervals:
+                    for k in v.symbolic_expressions:
+                        ids3[(mapper.nid(v.uuid.bytes), k)] = "?"
+            got3 = protomsg.canon_msg(mapper.canon_from_proto(pm3, ids3))
+            if got3 != want:
+                return {"exc": "ReaderDisagreesWithSchemaMapping", "msg": _first_diff(want, got3)}
+            self.last_msg = (op["msg"], im)
         return NONE
 
     # ---- projection --------------------------------------------------------------
@@ -654,15 +853,49 @@ class Env:
 
     def _p_tags(self):
         out = {}
-        inv_flag = {v: k for k, v in self.flag_of.items()}
-        inv_attr = {v: k for k, v in self.attr_of.items()}
         for h in self._by("ir", "mod"):
-            out[h] = list(self.obj[h].aux_data.keys())
+            out[h] = [int(k[1:]) if k[:1] == "k" and k[1:].isdigit() else k for k in self.obj[h].aux_data.keys()]
         for h in self._by("sec"):
-            out[h] = [inv_flag[f] for f in self.obj[h].flags]
+            out[h] = [self.flag_token(f.value) for f in self.obj[h].flags]
         for h in self._by("expr"):
-            out[h] = [inv_attr[a] for a in self.obj[h].attributes]
+            out[h] = [self.attr_token(int(a)) for a in self.obj[h].attributes]
         return out
+
+    def _p_scal(self):
+        out = {}
+        for h in self._by("mod"):
+            o = self.obj[h]
+            out[h] = {"name": self.str_token(o.name), "binary_path": self.str_token(o.binary_path),
+                      "isa": SCHEMA.token("ISA", o.isa.value), "file_format": SCHEMA.token("FileFormat", o.file_format.value),
+                      "byte_order": SCHEMA.token("ByteOrder", o.byte_order.value),
+                      "preferred_addr": self.u64_token(o.preferred_addr), "rebase_delta": self.i64_token(o.rebase_delta)}
+        for h in self._by("sec"):
+            out[h] = {"name": self.str_token(self.obj[h].name)}
+        for h in self._by("sym"):
+            out[h] = {"at_end": "T" if self.obj[h].at_end else "F"}
+        for h in self._by("code"):
+            out[h] = {"decode_mode": SCHEMA.token("DecodeMode", self.obj[h].decode_mode.value)}
+        for h in self._by("expr"):
+            o = self.obj[h]
+            out[h] = {"xoffset": self.i64_token(o.offset)}
+            if isinstance(o, self.g.SymAddrAddr):
+                out[h]["xscale"] = self.i64_token(o.scale)
+        return out
+
+    def _p_deq(self):
+        out = {}
+        for i in self._by("ir"):
+            sh = self.shadow.get(i)
+            if sh is None:
+                out[i] = NONE
+                continue
+            a, b = self.obj[i].deep_eq(sh), sh.deep_eq(self.obj[i])
+            out[i] = "equal" if (a is True and b is True) else "differ" if (a is False and b is False) else \
+                "ASYMMETRIC(%r,%r)" % (a, b)
+        return out
+
+    def _p_shadowed(self):
+        return {i: NONE for i in self._by("ir")}
 
     def _p_entry(self):
         return {m: self.nid(self.obj[m].entry_point) for m in self._by("mod")}
